@@ -117,9 +117,11 @@ def _run_hist(seed: int) -> dict:
         limit = rng.choice([0.5, 5.0, 60.0])
         dead_min = rng.choice([0.05, 1.0, 10.0])
         timeout = dead_min * 60
+        check_min = rng.choice([0.01, 0.5, 5.0])  # the parent's reporting must not depend on the service-check cadence
         for app in env.apps.values():
             app.conf.max_pending_seconds = limit
             app.conf.runner_considered_dead_after_minutes = dead_min
+            app.conf.atomic_service_check_interval_minutes = check_min
         tasks = {st: _apps.register(app, simtasks.add) for st, app in env.apps.items()}
         runners = [f"run{i}" for i in range(rng.randint(2, 4))]
         ctxs = {r: RunnerContext(runner_cls="SimRunner", runner_id=r) for r in runners}
@@ -174,6 +176,24 @@ def _run_hist(seed: int) -> dict:
 
         stamp: dict[int, dict[str, float]] = {i: {"mem": status[i][2], "sqlite": env.apps["sqlite"].orchestrator.get_invocation_status_record(ids[i]["sqlite"]).timestamp.timestamp()} for i in range(n)}
         hbs: dict[str, dict[str, float]] = {}  # runner -> backend -> last heartbeat
+        parents: dict[str, Any] = {}
+
+        class _Proc:
+            def __init__(self, alive: bool) -> None:
+                self._alive = alive
+
+            def is_alive(self) -> bool:
+                return self._alive
+
+        def _parent_runner(st: str, app: Any) -> Any:
+            """A real PersistentProcessRunner object per app (never started): only its parent-side reporting code is used."""
+            if st not in parents:
+                from pynenc.runner.persistent_process_runner import PersistentProcessRunner
+
+                prev = app.runner
+                parents[st] = PersistentProcessRunner(app)
+                app.runner = prev
+            return parents[st]
 
         n_ops = rng.randint(20, 80)
         for step in range(n_ops):
@@ -185,10 +205,21 @@ def _run_hist(seed: int) -> dict:
                 if parent:
                     stats["probe.parent_reported_heartbeat"] = stats.get("probe.parent_reported_heartbeat", 0) + 1
 
-                def do_hb(st: str, app: Any, who: str = who, elig: bool = elig) -> None:
+                dead_sibling = rng.choice([x for x in runners if x != who]) if parent and rng.random() < 0.5 else None
+
+                def do_hb(st: str, app: Any, who: str = who, elig: bool = elig, parent: bool = parent, dead_sibling: Any = dead_sibling) -> None:
                     t = sim.now
                     t += 1e-6
-                    app.orchestrator.register_runner_heartbeats([who], can_run_atomic_service=elig)
+                    if parent:
+                        # through the real parent code: BaseRunner._report_child_runner_heartbeats of a process runner whose
+                        # child table holds `who` (alive) and possibly a dead sibling (which must not be reported)
+                        pr = _parent_runner(st, app)
+                        pr.child_runner_ids = {who: _Proc(True)}
+                        if dead_sibling is not None:
+                            pr.child_runner_ids[dead_sibling] = _Proc(False)
+                        pr._report_child_runner_heartbeats()
+                    else:
+                        app.orchestrator.register_runner_heartbeats([who], can_run_atomic_service=elig)
                     hbs.setdefault(who, {})[st] = t
 
                 each(do_hb)
